@@ -754,6 +754,13 @@ func (ex *Exec) sizeValue(st *State, t *Term, why string, elem types.Type) (int,
 			ex.out.Inconclusive = append(ex.out.Inconclusive, "allocation obligation: solver unknown at "+st.site())
 		}
 	}
+	if !t.IsConst() {
+		// a negative size is one path (every negative value behaves alike: the allocation panics); it must not be
+		// lost among the "large" values that the cut policy drops
+		if ex.branch(st, ex.tt.Slt(t, C(t.W, 0))) {
+			return -1, true
+		}
+	}
 	v := int64(ex.concretize(st, t, why))
 	if t.W < 64 {
 		v = sext64(uint64(v), t.W)
